@@ -552,18 +552,8 @@ func c17Start(w *c17World, s *c17State, k int) []string {
 	if tc.Name != "saml_"+relay {
 		out = append(out, fmt.Sprintf("start/relaystate-does-not-name-cookie|RelayState %q, cookie %q", relay, tc.Name))
 	}
-	if tc.Path != "/saml/acs" {
-		out = append(out, fmt.Sprintf("start/tracking-cookie-path|Path %q", tc.Path))
-	}
-	if tc.MaxAge != int(w.delay.Seconds()) {
-		out = append(out, fmt.Sprintf("start/tracking-cookie-lifetime|Max-Age %d, MaxIssueDelay is %d s", tc.MaxAge, int(w.delay.Seconds())))
-	}
-	if !tc.HttpOnly {
-		out = append(out, "start/tracking-cookie-not-httponly|tracking cookie lacks HttpOnly")
-	}
-	if tc.Secure != (w.cfg.scheme == "https") {
-		out = append(out, fmt.Sprintf("start/tracking-cookie-secure-flag|Secure=%v on a %s deployment", tc.Secure, w.cfg.scheme))
-	}
+	// (Path, Max-Age, HttpOnly and Secure of the *tracking* cookie are implementation detail; the statement constrains behaviour -
+	// refusal after the tracking lifetime - and the attributes of the session cookie only.)
 	f.cookieVal = tc.Value
 	w.applyCookies(s, rep)
 	if w.cfg.rsf == "fixed" && !strings.HasPrefix(relay, "fixed-") {
